@@ -297,6 +297,9 @@ pub fn by_family(fam: &str, seed: u64) -> Scenario {
         "capRace" => cap_race(seed),
         "ctlB" => ctl_b(seed),
         "concBc" => conc_bc(seed),
+        "faultA" => fault_a(seed),
+        "goawayBc" => goaway_bc(seed),
+        "shutdownA" => shutdown_a(seed),
         _ => mix_a(seed, false),
     }
 }
@@ -799,5 +802,103 @@ pub fn conc_bc(seed: u64) -> Scenario {
     s.peer = steps;
     s.drop_sr_when_done = true;
     s.sched.then = pick(&mut rng, &["random", "appfirst"]).to_string();
+    s
+}
+
+// ---------------------------------------------------------------------------
+// Fault enumeration (C07, C17 surfacing): a base exchange (mixA / mixAd) is first run fault-free to learn how
+// many executor steps it takes; then the same exchange is re-run with one ending event injected at a chosen
+// step: clean EOF, EOF with bytes lost mid-frame, read error, write error, WriteZero, connection object
+// dropped, abrupt / graceful shutdown. Afterwards every task keeps going (further operations on every live handle).
+pub const FAULT_KINDS: [&str; 10] = ["eof", "eof_cut", "rerr:reset", "rerr:timeout", "werr:broken", "werr:aborted", "wzero", "drop", "abrupt", "graceful"];
+
+pub fn fault_a(seed: u64) -> Scenario {
+    let mut rng = StdRng::seed_from_u64(seed ^ 0xFA_017);
+    let base_seed = seed / 16; // 16 fault points / kinds per base exchange
+    let mut s = mix_a(base_seed, base_seed % 2 == 1);
+    s.env.retain(|e| !matches!(e.op, EnvOp::DropSr));
+    let base = crate::run::run(&s, false);
+    let steps = base.steps.max(2).min(3000);
+    let at = rng.gen_range(1..steps);
+    let ep = rng.gen_range(0..2usize);
+    let kind = pick(&mut rng, &FAULT_KINDS);
+    s.name = format!("faultA-{}-{}@{}e{}", seed, kind.replace(':', "_"), at, ep);
+    let op = match kind {
+        "drop" => EnvOp::Conn { ep, op: "drop".into(), n: 0 },
+        "abrupt" => EnvOp::Conn { ep: 1, op: "abrupt_shutdown".into(), n: pick(&mut rng, &CODES) },
+        "graceful" => EnvOp::Conn { ep: 1, op: "graceful_shutdown".into(), n: 0 },
+        k => EnvOp::Fault { ep, kind: k.to_string() },
+    };
+    s.env.push(EnvStep { at: "step".into(), n: at, op });
+    // unblock anything that a blocked transport would keep from finishing
+    s.env.push(EnvStep { at: "q".into(), n: 1, op: EnvOp::Budget { ep: 0, n: None } });
+    s.env.push(EnvStep { at: "q".into(), n: 2, op: EnvOp::Budget { ep: 1, n: None } });
+    s.coop = false;
+    s
+}
+
+// ---------------------------------------------------------------------------
+// Mode Bc: GOAWAY from the (scripted) server at every kind of moment (C15): any last-stream-id (below, at,
+// above the streams in flight, 0, 2^31-1), any code, debug data, repeated with decreasing / equal / (illegal)
+// increasing ids, NO_ERROR drains; requests issued before and after.
+pub fn goaway_bc(seed: u64) -> Scenario {
+    let mut rng = StdRng::seed_from_u64(seed ^ 0x60A_4A1);
+    let mut s = Scenario::default();
+    s.name = format!("goawayBc-{}", seed);
+    s.mode = "Bc".into();
+    s.sched.seed = seed;
+    s.peer_cfg.settings = vec![(4, 1 << 20)];
+    s.peer_cfg.ack_settings = true;
+    s.peer_cfg.ack_ping = true;
+    s.peer_cfg.grant = "all".into();
+    s.peer_cfg.respond = true;
+    let nreq = rng.gen_range(2..6);
+    let gq = rng.gen_range(1..4usize); // quiescence at which the GOAWAY is sent
+    for i in 0..nreq {
+        let mut r = ReqProg::default();
+        r.tag = i + 1;
+        r.ready = rng.gen_bool(0.7);
+        let start = rng.gen_range(0..5usize);
+        r.start_q = if start == 0 { None } else { Some(start) };
+        if rng.gen_bool(0.4) {
+            r.eos = true;
+        } else {
+            r.ops = vec![SendOp::Data { n: pick(&mut rng, &[10usize, 1000, 20000]), eos: false }, SendOp::WaitQ { k: start + rng.gen_range(1..4) },
+                         SendOp::Data { n: pick(&mut rng, &[0usize, 10]), eos: true }];
+        }
+        s.reqs.push(r);
+    }
+    let mut steps = vec![];
+    for q in 1..=5usize {
+        steps.push(PeerStep::WaitQ);
+        if q == gq {
+            let last = pick(&mut rng, &[0u32, 1, 3, 5, 7, 0x7fff_ffff]);
+            let code = if rng.gen_bool(0.5) { 0 } else { pick(&mut rng, &CODES) };
+            steps.push(PeerStep::Goaway { last, code, dbg: pick(&mut rng, &[0usize, 5, 100]) });
+            if rng.gen_bool(0.4) {
+                let last2 = pick(&mut rng, &[0u32, 1, 3, last, last.saturating_add(2).min(0x7fff_ffff)]);
+                steps.push(PeerStep::Goaway { last: last2, code: pick(&mut rng, &CODES), dbg: 0 });
+            }
+        } else {
+            steps.push(PeerStep::Auto { ack_settings: None, ack_ping: None, grant: None, respond: None });
+        }
+    }
+    steps.push(PeerStep::WaitQ);
+    if rng.gen_bool(0.5) {
+        steps.push(PeerStep::Eof);
+    }
+    s.peer = steps;
+    s.drop_sr_when_done = rng.gen_bool(0.5);
+    s
+}
+
+// Mode A: server-side shutdown (graceful / abrupt) at every kind of moment while streams are in every state.
+pub fn shutdown_a(seed: u64) -> Scenario {
+    let mut rng = StdRng::seed_from_u64(seed ^ 0x5D0_11);
+    let mut s = mix_a(seed, rng.gen_bool(0.3));
+    s.name = format!("shutdownA-{}", seed);
+    let at = rng.gen_range(5..200);
+    let op = if rng.gen_bool(0.7) { EnvOp::Conn { ep: 1, op: "graceful_shutdown".into(), n: 0 } } else { EnvOp::Conn { ep: 1, op: "abrupt_shutdown".into(), n: pick(&mut rng, &CODES) } };
+    s.env.push(EnvStep { at: "step".into(), n: at, op });
     s
 }
